@@ -124,6 +124,41 @@ def _make_child_methods(self, loads=pickle_loads):
     self.wait_for_job = self._make_protected_receive(self.inq)
     self.wait_for_syn = self._make_protected_receive(self.synq) if self.synq else None'''
 
+EXPECTED_CALL = '''\
+def __call__(self):
+    _exit = sys.exit
+    _exitcode = [None]
+
+    def exit(status=None):
+        _exitcode[0] = status
+        return _exit(status)
+    sys.exit = exit
+    pid = os.getpid()
+    self._make_child_methods()
+    self.after_fork()
+    self.on_loop_start(pid=pid)
+    try:
+        sys.exit(self.workloop(pid=pid))
+    except Exception as exc:
+        error('Pool process %r error: %r', self, exc, exc_info=1)
+        self._do_exit(pid, _exitcode[0], exc)
+    finally:
+        self._do_exit(pid, _exitcode[0], None)'''
+
+EXPECTED_DO_EXIT = '''\
+def _do_exit(self, pid, exitcode, exc=None):
+    __K_do_exit_code__
+    if self.on_exit is not None:
+        self.on_exit(pid, exitcode)
+    if sys.platform != 'win32':
+        try:
+            self.outq.put((DEATH, (pid, exitcode)))
+            time.sleep(1)
+        finally:
+            os._exit(exitcode)
+    else:
+        os._exit(exitcode)'''
+
 CONSTS = ['ACK', 'READY', 'TASK', 'NACK', 'DEATH', 'EX_OK', 'EX_FAILURE', 'EX_RECYCLE',
           'GUARANTEE_MESSAGE_CONSUMPTION_RETRY_LIMIT']
 
@@ -290,6 +325,23 @@ def generate(repo):
     cm = pykernel.find_func(tree, 'Worker._make_child_methods')
     strip_doc(cm)
     compare_skeleton('Worker._make_child_methods', cm, EXPECTED_CHILD_METHODS)
+
+    # ------------------------------------------------------- __call__ / _do_exit
+    ca = pykernel.find_func(tree, 'Worker.__call__')
+    strip_doc(ca)
+    compare_skeleton('Worker.__call__', ca, EXPECTED_CALL)
+    de = pykernel.find_func(tree, 'Worker._do_exit')
+    strip_doc(de)
+    try:
+        first = de.body[0]
+        expect(isinstance(first, ast.If) and ast.unparse(first.test) == 'exitcode is None',
+               '_do_exit: if exitcode is None')
+        kernels.append(('do_exit_code', ['exitcode', 'exc'],
+                        [first, ast.Return(value=ast.Name(id='exitcode', ctx=ast.Load()))], {}, []))
+        de.body[0] = placeholder_stmt('do_exit_code')
+    except (IndexError, AttributeError) as exc:
+        fail('_do_exit structure: %s' % exc)
+    compare_skeleton('Worker._do_exit', de, EXPECTED_DO_EXIT)
 
     # ------------------------------------------------------------------- emit
     spec = dict(name='K_worker', file=FILE, state=[], funcs=[])
